@@ -552,6 +552,10 @@ def placement_scenarios(tier):
     for v in (0, 1):
         for off in (0, 4090, 4093):
             add(flavour="bool", boolv=v, func_page=0x10000000, off=off, tramp_delta_pages=2, disp=0)
+    # a page of the target never becomes writable: the first one, or only the second one of a straddling entry
+    for fl in ("raw", "bool", "unchecked"):
+        for off, deny in ((64, "first"), (4092, "second"), (4093, "second"), (4094, "second"), (4095, "second"), (4093, "first"), (4090, "first")):
+            add(flavour=fl, boolv=1, func_page=0x10000000, off=off, tramp_delta_pages=3, disp=1 << 20, deny=deny)
     # the next function packed right behind the 6-byte target (no padding to a 16-byte boundary)
     for v in (0, 1):
         for off in (0, 64, 4084, 4090):
@@ -606,7 +610,7 @@ def prologue_scenarios():
     not touching / releasing (C02, C03, C12) and for C01"""
     scen = []
     for pro in ("plain", "endbr64", "nop", "thunk_e9", "thunk_eb", "selfmod"):
-        for off in (64, 4090, 2048):
+        for off in (64, 4090, 2048, 65, 4093):          # even and odd entry addresses, inside a page and straddling
             if pro == "selfmod" and off == 4090:
                 off = 1024
             for fl, dl in (("raw", 1), ("bool", -1), ("unchecked", 2), ("func", 1)):
